@@ -36,6 +36,7 @@ BASE = dict(style_density=(0, 4), max_nodes=30, fanout=3, br_styles=False, anim_
 STYLED = gen_model.profile(arbitrary_times=False, **BASE)
 MARKUP = gen_model.profile(arbitrary_times=False, text_markup=True, **dict(BASE, max_nodes=16, ruby=False))
 SUBMS = gen_model.profile(arbitrary_times=True, **dict(BASE, max_nodes=14, time_density=3))
+CR = gen_model.profile(arbitrary_times=False, **dict(BASE, xml_safe=False, max_nodes=16, time_shifts=None))
 SHRINK = gen_model.case_simplifications("spec")
 MARKUP_CHARS = re.compile(r"[&<>{}]|-->")
 
@@ -106,6 +107,8 @@ def check(case, res):
     res.label("text-with-markup-characters")
   exp, sig = cuecheck.expected_cues(doc, spec, per_region)
   n_all = len(exp)
+  if any("cr" in ch.leaf[2] for c in exp for l in c.lines for ch in l[:1]):
+    res.label("carriage-return-in-visible-preserved-text")
   exp, dropped, ambiguous = cuecheck.resolve_sub_ms(exp)
   sub_ms = dropped > 0 or ambiguous
   if sub_ms:
@@ -194,6 +197,8 @@ PARTS = {
                  required_labels=("line-setting-checked", "align-setting-checked", "cfg:srt-noformat")),
   "markup": Part("markup", check, strategy=cases(MARKUP, c06.VTT_NAMES + ["srt"]), n=(320, 16000), shrinker=SHRINK,
                  required_labels=("text-with-markup-characters",)),
+  "cr": Part("cr", check, strategy=cases(CR, ALL_CFGS), n=(240, 12000), shrinker=SHRINK,
+             required_labels=("carriage-return-in-visible-preserved-text",)),
   "subms": Part("subms", check, strategy=cases(SUBMS, ALL_CFGS, True), n=(320, 16000), shrinker=SHRINK,
                 required_labels=("sub-millisecond-interval", "sub-millisecond-interval-among-other-cues")),
 }
